@@ -184,6 +184,7 @@ def gen_scenario(rng, corp, with_fault):
         'entry': rng.choice(['cli.main', '__main__']),
         'omit_r': rng.random() < 0.5,
         'tty': rng.random() < 0.3,
+        'argv_shape': CW.ARGV_SHAPES[rng.randrange(len(CW.ARGV_SHAPES))] if rng.random() < 0.4 else CW.ARGV_SHAPES[0],
     }
     fault = None
     if with_fault:
